@@ -46,6 +46,7 @@ class ProgramVerdict:
     detail: str = ""
     n_entities: int = 0
     cap: object = None
+    free: dict = field(default_factory=dict)
 
     def worst(self):
         order = ["mismatch", "crosstalk", "undecided", "ok"]
@@ -65,6 +66,23 @@ def circuit_inputs(c: Circuit):
                 for s, _cnt in c.const_signals(e):
                     out.setdefault(m.group(1), []).append((e.num, s))
     return out
+
+
+def _source_input_names(prog):
+    names = {}
+    for st in prog.statements:
+        if type(st).__name__ != "DeclStmt":
+            continue
+        v = st.value
+        k = type(v).__name__
+        ok = False
+        if st.type_name == "Signal" and (k == "NumberLiteral" or (k == "SignalLiteral" and type(v.value).__name__ == "NumberLiteral")):
+            ok = True
+        if st.type_name == "Bundle" and k == "BundleLiteral" and all(
+                type(el).__name__ == "SignalLiteral" and type(el.value).__name__ == "NumberLiteral" for el in v.elements):
+            ok = True
+        names[st.name] = names.get(st.name, 0) + (1 if ok else 100)
+    return {n for n, cnt in names.items() if cnt == 1}
 
 
 def find_anchors(c: Circuit, name):
@@ -169,11 +187,22 @@ def judge(src, *, optimize=True, power_pole_type=None, rnd=None, scalar_own_sign
     pv = ProgramVerdict(src, "judged", n_entities=len(c.ents), cap=cap if keep_cap else None)
     B = Symbolic()
     cin = circuit_inputs(c)
+    try:
+        legit = _source_input_names(pipeline.parse(src))
+    except Exception:
+        legit = set()
+    # only top-level constant declarations are inputs (S3 overrides exactly those); a labelled
+    # constant created inside a loop/function or inside an expression keeps its concrete value
+    cin = {n: lst for n, lst in cin.items() if n in legit and len({num for num, _ in lst}) == 1}
     invars = {name: {sig: B.var(f"in_{name}.{sig}") for (_n, sig) in lst} for name, lst in cin.items()}
     overrides = {(num, sig): invars[name][sig] for name, lst in cin.items() for (num, sig) in lst}
     try:
         prog = pipeline.parse(src)
-        sem = Sem(B, inputs=invars)
+        ent_names = sorted(set(re.findall(r"\b(\w+)\.output\b", src)))
+        universe = sorted(set(re.findall(r'"([A-Za-z][A-Za-z0-9_-]+)"', src)) | {"iron-plate", "copper-plate"})
+        universe = [u for u in universe if not _is_proto_only(u, src)]
+        ent_out = {n: {sig: B.var(f"out_{n}.{sig}") for sig in universe} for n in ent_names}
+        sem = Sem(B, inputs=invars, entity_outputs=ent_out)
         sem.run(prog)
         outs = sem.outputs()
     except SemError as e:
@@ -182,7 +211,22 @@ def judge(src, *, optimize=True, power_pole_type=None, rnd=None, scalar_own_sign
     except Rejected as e:
         pv.status, pv.detail = "accepted-but-s3-rejects", str(e)
         return pv
-    ev = Evaluator(c, B, overrides=overrides)
+    free = {}
+    for ent in sem.entities:
+        if isinstance(ent.x, IntV) and isinstance(ent.y, IntV) and ent.name in ent_out:
+            w, h = tile_size(ent.proto)
+            for e in c.ents.values():
+                if e.name == ent.proto and abs(e.pos[0] - (ent.x.v + w / 2.0)) < 1e-6 and abs(e.pos[1] - (ent.y.v + h / 2.0)) < 1e-6:
+                    free[e.num] = ent_out[ent.name]
+    ev = Evaluator(c, B, overrides=overrides, free_outputs=free)
+    pv.free = free
+    _ENT["vars"] = ent_out
+    _ENT["out"] = {n: list(d) for n, d in ent_out.items()}
+    _ENT["free"] = {}
+    for ent in sem.entities:
+        for num, d in free.items():
+            if d is ent_out.get(ent.name):
+                _ENT["free"][num] = (ent.name, list(d))
     ideal = None
     for name, val in outs.items():
         anchors = find_anchors(c, name)
@@ -208,6 +252,14 @@ def judge(src, *, optimize=True, power_pole_type=None, rnd=None, scalar_own_sign
             if pairs is None:
                 pv.outputs.append(OutputVerdict(name, "skip", "implicitly typed bundle member"))
                 continue
+            if isinstance(val, SigV) and val.type is None:
+                m = ARROW_RE.search(a.desc)
+                chosen = m.group(1) if m else None
+                explicit = set(re.findall(r'"([A-Za-z][A-Za-z0-9_-]+)"', src))
+                if chosen in ("signal-each", "signal-anything", "signal-everything", "signal-W") or chosen in explicit:
+                    pv.outputs.append(OutputVerdict(name, "implicit-collision",
+                                                    f"compiler-chosen signal {chosen} for the untyped value '{name}' is a wildcard/reserved signal or is used explicitly by the program"))
+                    continue
             type_dev = None
             if isinstance(val, SigV) and val.type is not None:
                 m = ARROW_RE.search(a.desc)
@@ -242,7 +294,7 @@ def judge(src, *, optimize=True, power_pole_type=None, rnd=None, scalar_own_sign
                         continue
             # classify: does the difference vanish under ideal isolation?
             if ideal is None:
-                ideal = IdealEvaluator(c, B, overrides=overrides, allowed=_edge_filter(cap, c))
+                ideal = IdealEvaluator(c, B, overrides=overrides, free_outputs=free, allowed=_edge_filter(cap, c))
             try:
                 icontent = ideal.anchor_content(a)
                 ipairs = expected_pairs(B, val, icontent, a.desc)
@@ -251,7 +303,126 @@ def judge(src, *, optimize=True, power_pole_type=None, rnd=None, scalar_own_sign
                 ist = "unknown"
             status = "crosstalk" if ist == "same" else "mismatch"
             pv.outputs.append(OutputVerdict(name, status, f"signal {label}", witness))
+    _judge_entities(pv, sem, c, ev, B, cap, overrides)
+    if any(o.status == "mismatch" for o in pv.outputs) and _entity_output_collision(cap):
+        for o in pv.outputs:
+            if o.status == "mismatch":
+                o.status = "entity-output-collision"
     return pv
+
+
+def _entity_output_collision(cap):
+    """Class of KF-C06-entity-output-signal-collision: some combinator receives, on ONE colour, an edge
+    from a user entity's circuit output (registered under the name 'bundle') together with an edge of an
+    ordinary signal from another source — the conflict graph compares signal names and cannot see that
+    the entity output may carry that very signal."""
+    try:
+        colors = cap.planner.connection_planner._edge_wire_colors
+        placements = cap.plan.entity_placements
+    except Exception:
+        return False
+    by_sink = {}
+    for (src, sink, sig), col in colors.items():
+        by_sink.setdefault((sink, col), []).append((src, sig))
+    for (sink, col), lst in by_sink.items():
+        ent_edges = [(s_, g) for s_, g in lst if g == "bundle" and getattr(placements.get(s_), "role", "") not in ("combinator", "arithmetic", "decider", "constant")
+                     and not str(getattr(placements.get(s_), "entity_type", "")).endswith("combinator")]
+        others = [(s_, g) for s_, g in lst if g != "bundle" and s_ not in {e for e, _ in ent_edges}]
+        if ent_edges and others:
+            return True
+    return False
+
+
+def _is_proto_only(name, src):
+    """quoted names used only as place() prototypes are not signals"""
+    return re.search(r'place\(\s*"' + re.escape(name) + '"', src) is not None and len(re.findall('"' + re.escape(name) + '"', src)) == len(re.findall(r'place\(\s*"' + re.escape(name) + '"', src))
+
+
+_TILE = {}
+
+
+def tile_size(proto):
+    if proto not in _TILE:
+        from draftsman.entity import new_entity
+        e = new_entity(proto)
+        _TILE[proto] = (e.tile_width, e.tile_height)
+    return _TILE[proto]
+
+
+_FLAG = {}
+
+
+def _has_enable_flag(proto):
+    if proto not in _FLAG:
+        from draftsman.entity import new_entity
+        _FLAG[proto] = hasattr(new_entity(proto), "circuit_enabled")
+    return _FLAG[proto]
+
+
+def _judge_entities(pv, sem, c, ev, B, cap, overrides):
+    """C06/C09: every place() yields exactly one entity of that prototype at that tile, and its circuit
+    condition is true exactly when the assigned enable expression is positive."""
+    from spec.facto_sem import EntV
+    user_like = [e for e in c.ents.values() if e.kind in ("other", "pole")]
+    claimed = set()
+    for ent in sem.entities:
+        if not (isinstance(ent.x, IntV) and isinstance(ent.y, IntV)):
+            continue
+        w, h = tile_size(ent.proto)
+        cx, cy = ent.x.v + w / 2.0, ent.y.v + h / 2.0
+        label = f"entity:{ent.name or ent.proto}@{ent.x.v},{ent.y.v}"
+        matches = [e for e in user_like if e.name == ent.proto and abs(e.pos[0] - cx) < 1e-6 and abs(e.pos[1] - cy) < 1e-6]
+        if len(matches) != 1:
+            near = [(e.name, e.pos) for e in user_like if e.name == ent.proto][:4]
+            pv.outputs.append(OutputVerdict(label, "mismatch", f"{len(matches)} entities of {ent.proto} with top-left tile ({ent.x.v},{ent.y.v}); same-prototype entities at {near}",
+                                            {"expected_centre": [cx, cy]}))
+            continue
+        e = matches[0]
+        if e.num in claimed:
+            pv.outputs.append(OutputVerdict(label, "mismatch", "two place() calls share one entity"))
+            continue
+        claimed.add(e.num)
+        if ent.enable is None:
+            pv.outputs.append(OutputVerdict(label, "ok"))
+            continue
+        try:
+            want = B.cmp(">", sem.num(ent.enable), B.const(0))
+            got = ev.condition(e)
+        except (Cyclic, Unsupported) as ex:
+            pv.outputs.append(OutputVerdict(label, "skip", str(ex)))
+            continue
+        if got is None or (_has_enable_flag(ent.proto) and not e.cb.get("circuit_enabled", False)):
+            pv.outputs.append(OutputVerdict(label, "mismatch", "enable assigned in the source but the entity has no enabled circuit condition"))
+            continue
+        s = z3.Solver()
+        s.set("timeout", SMT_TIMEOUT_MS)
+        s.add(B._b(want) != B._b(got))
+        r = s.check()
+        if r == z3.unsat:
+            pv.outputs.append(OutputVerdict(label, "ok"))
+        elif r == z3.sat:
+            m = s.model()
+            inputs = {str(d): m[d].as_signed_long() for d in m.decls() if d.name().startswith("in_")}
+            # ideal isolation?
+            status = "mismatch"
+            try:
+                ideal = IdealEvaluator(c, B, overrides=overrides, free_outputs=getattr(pv, 'free', {}), allowed=_edge_filter(cap, c))
+                s2 = z3.Solver()
+                s2.set("timeout", SMT_TIMEOUT_MS)
+                s2.add(B._b(want) != B._b(ideal.condition(e)))
+                if s2.check() == z3.unsat:
+                    status = "crosstalk"
+            except (Cyclic, Unsupported):
+                pass
+            pv.outputs.append(OutputVerdict(label, status, f"circuit condition {e.cb.get('circuit_condition')} differs from (enable > 0)",
+                                            {"inputs": inputs, "expected_enabled": bool(m.eval(B._b(want), model_completion=True)),
+                                             "condition_true": bool(m.eval(B._b(got), model_completion=True))}))
+        else:
+            pv.outputs.append(OutputVerdict(label, "undecided", "solver unknown on entity condition"))
+    extra = [e for e in user_like if e.num not in claimed and e.kind == "other"]
+    n_places = len([x for x in sem.entities if isinstance(x.x, IntV) and isinstance(x.y, IntV)])
+    if extra and n_places == len(sem.entities):
+        pv.outputs.append(OutputVerdict("entities", "mismatch", f"{len(extra)} non-compiler entities not accounted for by any place(): {[(e.name, e.pos) for e in extra][:4]}"))
 
 
 def _same_value(B, a, b):
@@ -298,13 +469,20 @@ def _judge_constant(c, B, name, val, overrides):
     return OutputVerdict(name, "skip", "constant bundle")
 
 
+_ENT = {"out": {}, "free": {}}  # per-judge context: entity output variables and their circuit entities
+
+
 def _concrete_eval(src, c, cin, values, name, anchor):
     """Both sides on concrete inputs (back end Concrete): (expected, got) as plain dicts."""
     CB = Concrete()
-    ov = {(num, sig): CB.const(values[n][sig]) for n, lst in cin.items() for (num, sig) in lst}
-    ev = Evaluator(c, CB, overrides=ov)
+    ov = {(num, sig): CB.const(values[n][sig]) for n, lst in cin.items() if n != "__entity_outputs__" for (num, sig) in lst}
+    evals = values.get("__entity_outputs__", {})
+    free = {num: {sig: CB.const(evals.get(nm, {}).get(sig, 0)) for sig in sigs}
+            for num, (nm, sigs) in _ENT["free"].items()}
+    ev = Evaluator(c, CB, overrides=ov, free_outputs=free)
     got = {k: v for k, v in ev.anchor_content(anchor).items() if v != 0}
-    sem = Sem(CB, inputs={n: {s_: CB.const(v) for s_, v in d.items()} for n, d in values.items()})
+    sem = Sem(CB, inputs={n: {s_: CB.const(v) for s_, v in d.items()} for n, d in values.items() if n != "__entity_outputs__"},
+              entity_outputs={nm: {sig: CB.const(evals.get(nm, {}).get(sig, 0)) for sig in sigs} for nm, sigs in _ENT["out"].items()})
     sem.run(pipeline.parse(src))
     val = sem.outputs().get(name)
     if isinstance(val, SigV):
@@ -320,6 +498,9 @@ def _witness(src, c, cin, model, invars, name, anchor):
     values = {}
     for n, d in invars.items():
         values[n] = {s_: model.eval(var, model_completion=True).as_signed_long() for s_, var in d.items()}
+    if _ENT["out"]:
+        values["__entity_outputs__"] = {nm: {sig: model.eval(var, model_completion=True).as_signed_long() for sig, var in d.items()}
+                                        for nm, d in _ENT["vars"].items()}
     exp, got = _concrete_eval(src, c, cin, values, name, anchor)
     return {"inputs": values, "expected": exp, "anchor_network": got, "output": name}
 
@@ -343,6 +524,8 @@ def _random_search(src, c, cin, name, anchor, optimize, rnd):
     for _ in range(200):
         values = {n: {sig: (rnd.choice(pool) if rnd.random() < 0.7 else rnd.randint(-(2**31), 2**31 - 1))
                       for (_e, sig) in lst} for n, lst in cin.items()}
+        if _ENT["out"]:
+            values["__entity_outputs__"] = {nm: {sig: rnd.choice(pool) for sig in sigs} for nm, sigs in _ENT["out"].items()}
         exp, got = _concrete_eval(src, c, cin, values, name, anchor)
         if exp is None:
             return None
